@@ -1,6 +1,13 @@
 package main
 
 func init() {
+	register("T5", propMeta{Explanation: "tmp"}, func(c *Check) {
+		ruleIterUpdateTable(c, "C19-R2")
+		ruleIterBoth(c, "C19-R3", "C19-R4", "C19-R5")
+		ruleCmpInt(c, "C19-R5")
+		ruleUpdateLoop(c, "C19-R1")
+		ruleEmptyPut(c, "C19-R7")
+	})
 	register("T4", propMeta{Explanation: "tmp"}, func(c *Check) {
 		ruleLoadBody(c, "C01-R4", "C14-R5", "C18-R5", "C18-R6", "C18-R7")
 		ruleVersionGates(c, "C18-R3")
